@@ -261,6 +261,10 @@ def build_fixture(fxspec):
         _git(r, "tag", "-a", "-m", "annotated", "v1")
         if rng.random() < 0.5:
             _git(r, "tag", "-a", "-m", "tree tag", "treetag", "HEAD^{tree}")
+        if fxspec.get("symrefs", rng.random() < 0.5):
+            # symbolic references besides HEAD, as a non-mirror clone leaves them
+            _git(r, "symbolic-ref", "refs/remotes/origin/HEAD", "refs/heads/feature/x")
+            _git(r, "symbolic-ref", "refs/heads/alias-of-tag", "refs/tags/v1")
         if rng.random() < 0.5:
             _git(r, "pack-refs", "--all")
         fx["ids"] = expected_ids(fx)
@@ -300,10 +304,13 @@ def _snapshot_id(repo):
     tt = model.SnapshotTargetType if hasattr(model, "SnapshotTargetType") else model.TargetType
     kinds = {"commit": tt.REVISION, "tag": tt.RELEASE, "tree": tt.DIRECTORY, "blob": tt.CONTENT}
     branches = {}
-    out = _git(os.fsdecode(repo), "for-each-ref", "--format=%(refname) %(objectname) %(objecttype)")
+    out = _git(os.fsdecode(repo), "for-each-ref", "--format=%(refname) %(objectname) %(objecttype) %(symref)")
     for line in out.splitlines():
-        ref, oid, typ = line.split(b" ")
-        branches[ref] = model.SnapshotBranch(target=bytes.fromhex(oid.decode()), target_type=kinds[typ.decode()])
+        ref, oid, typ, sym = line.split(b" ")
+        if sym:       # a symbolic reference other than HEAD (e.g. refs/remotes/origin/HEAD): an alias branch
+            branches[ref] = model.SnapshotBranch(target=sym, target_type=tt.ALIAS)
+        else:
+            branches[ref] = model.SnapshotBranch(target=bytes.fromhex(oid.decode()), target_type=kinds[typ.decode()])
     head = _git(os.fsdecode(repo), "symbolic-ref", "HEAD").strip()
     branches[b"HEAD"] = model.SnapshotBranch(target=head, target_type=tt.ALIAS)
     return model.Snapshot(branches=branches).swhid()
@@ -579,6 +586,7 @@ def gen(rng, tier):
     for s in range(nsets):
         fx = {"seed": rng.randrange(1, 10 ** 9)}
         fx["url_noauth"] = s % 2         # a URL without / with an empty authority (file:///x, lp:x, mailto:x)
+        fx["symrefs"] = (s + 1) % 2      # the git repository has symbolic references besides HEAD
         if s % 2 == 1:
             fx["nonutf8"] = 1            # names inside the trees and link texts that are not valid UTF-8
             fx["nonutf8_arg"] = 1        # ... and the names of the arguments themselves
